@@ -654,9 +654,23 @@ func c07valRun(cs string) string {
 	id := atoi(m["id"])
 	r := rand.New(rand.NewSource(int64(id)))
 	name := c07name(r, 200)
+	if m["big"] == "2" { // a long owner name: three labels of 60 octets
+		name = nil
+		for i := 0; i < 3; i++ {
+			name = append(name, 60)
+			for j := 0; j < 60; j++ {
+				name = append(name, byte('a'+r.Intn(26)))
+			}
+		}
+	}
 	msg := c07build(id, name, c07u16(r), c07u16(r), m["nx"] == "1", uint32(r.Intn(3)))
 	if m["big"] == "1" {
 		for i := 0; i < 200; i++ {
+			msg.Answers = append(msg.Answers, c07rr(r, name, 0))
+		}
+	}
+	if m["big"] == "2" { // more than 65535 octets without compression (the cache's own form), legal on the wire with it
+		for i := 0; i < 420; i++ {
 			msg.Answers = append(msg.Answers, c07rr(r, name, 0))
 		}
 	}
@@ -687,6 +701,9 @@ func c07valGen(r *rand.Rand, thorough bool, emit func(c, cat string)) {
 	for i := 0; i < n; i++ {
 		big := r.Intn(40) == 0
 		emit(fmt.Sprintf("id=%d nx=%s big=%s", r.Intn(1<<30), b2s(r.Intn(4) == 0), b2s(big)), map[bool]string{true: "big", false: "plain"}[big])
+	}
+	for i := 0; i < 2+n/400; i++ {
+		emit(fmt.Sprintf("id=%d nx=0 big=2", r.Intn(1<<30)), "huge")
 	}
 }
 
